@@ -2,9 +2,9 @@
 # run_all.sh <seed> <tier> [parallel]: run every claimed check once; print one line per check. Used to make sure
 # every check is silent on the unchanged tree at several seeds and under load.
 SEED=${1:-1}; TIER=${2:-quick}; PAR=${3:-1}
-cd /verif
+cd "$(dirname "$(readlink -f "$0")")/.."
 ids=$(python3 -c "import json;print(' '.join(c['property_id'] for c in json.load(open('MANIFEST.json'))['checks']))")
-run() { id=$1; VERIF_SEED=$SEED ./check $id --tier $TIER > /tmp/runall_${SEED}_${TIER}_$id.log 2>&1; rc=$?; echo "seed=$SEED $id rc=$rc $(grep -c '^VIOLATION' /tmp/runall_${SEED}_${TIER}_$id.log) violations | $(tail -1 /tmp/runall_${SEED}_${TIER}_$id.log | cut -c1-150) | tw=$(ss -s | sed -n 2p | sed 's/.*timewait //; s/)//')"; }
+run() { id=$1; VERIF_SEED=$SEED ./check $id --tier $TIER > ${RUNALL_LOGDIR:-/tmp}/runall_${SEED}_${TIER}_$id.log 2>&1; rc=$?; echo "seed=$SEED $id rc=$rc $(grep -c '^VIOLATION' ${RUNALL_LOGDIR:-/tmp}/runall_${SEED}_${TIER}_$id.log) violations | $(tail -1 ${RUNALL_LOGDIR:-/tmp}/runall_${SEED}_${TIER}_$id.log | cut -c1-150) | tw=$(ss -s | sed -n 2p | sed 's/.*timewait //; s/)//')"; }
 if [ "$PAR" = 1 ]; then for id in $ids; do run $id; done
 else
   for id in $ids; do
